@@ -288,7 +288,7 @@ def run_shard(ctx):
             text = compose(R, R.choice(SPEC), R.choice(["quote", "list", "quote-list", "list-list", "olist", "cell"]))
             kind = "composed"
         else:
-            g = G.Gen(R, blocks=BLOCKS, inlines=INLINES, max_depth=R.randint(2, 6), hr_in_container=True)
+            g = G.Gen(R, blocks=BLOCKS, inlines=INLINES, max_depth=R.randint(2, 6), hr_in_container=True, exotic=R.random() < 0.3)
             text, _ = g.document(1, 5)
             kind = "grammar"
             if mode != "myst":
